@@ -1774,6 +1774,48 @@ def closest_grid(ctx, reqs, pending):
     ctx.hist('grid', 'closest orientation / handedness', n)
 
 
+def affine_helper_contract(ctx):
+    """The affine helpers behind the operations are handed matrices that belong to an object (`_permute_affine` passes
+    `self._affine` itself): whatever they are given must come back untouched and the result must live in memory of its own —
+    otherwise an operation on one object reaches the affine of the object it was derived from.  Run-time counterpart of the
+    regenerated tables T9g (`result_affine_is_fresh`, `ops_never_write_input`)."""
+    from highdicom import spatial
+    n = 0
+    for k in range(ctx.n(40, 300)):
+        r = ctx.rng('affine-helper', k)
+        spec = gen_volume_spec(ctx, r, -1000 - k)
+        _, g = build(dict(spec, channels=[]))
+        stored = g.affine                     # stands for the matrix an object keeps
+        before = stored.tobytes()
+        shape = [int(x) for x in g.spatial_shape]
+        off = [r.randint(-3, 3) for _ in range(3)]
+        p = [0, 1, 2]
+        r.shuffle(p)
+        flips = [r.random() < 0.5 for _ in range(3)]
+        calls = [('_translate_affine_matrix', lambda: spatial._translate_affine_matrix(stored, off), {'offset': off}),
+                 ('_transform_affine_matrix/permute', lambda: spatial._transform_affine_matrix(affine=stored, shape=shape, permute_indices=p),
+                  {'permute_indices': p}),
+                 ('_transform_affine_matrix/flip', lambda: spatial._transform_affine_matrix(affine=stored, shape=shape, flip_indices=flips),
+                  {'flip_indices': flips})]
+        for name, call, args in calls:
+            case = {'affine_helper': name, 'index': k, 'args': args}
+            try:
+                res = call()
+            except Exception as e:  # noqa: BLE001
+                ctx.fail(case, {'what': f'{name} refused valid arguments: {type(e).__name__}: {e}'[:200]}, site='affine-helper')
+                continue
+            n += 1
+            ctx.case(op='affine-helper', outcome='ok', nontrivial_key=('affine-helper', name, k))
+            if stored.tobytes() != before:
+                ctx.fail(case, {'what': f'{name} modified the matrix it was given (an operation would change the affine of the object '
+                                        'it was derived from)'}, site='affine-helper')
+                stored = g.affine
+                before = stored.tobytes()
+            elif res is stored or np.shares_memory(res, stored):
+                ctx.fail(case, {'what': f'{name} returned the matrix it was given / a view of it'}, site='affine-helper')
+    ctx.hist('grid', 'affine helper contract', n)
+
+
 def orientation_grid(ctx):
     """All 48 x 48 (current, desired) orientation pairs on a real volume: oracle only (finite, complete)."""
     from highdicom.volume import Volume
@@ -1859,6 +1901,7 @@ def run(ctx):
     for entry in _corpus(ctx):
         run_fixed(ctx, entry, reqs, pending)
     orientation_grid(ctx)
+    affine_helper_contract(ctx)
     n = ctx.n(1200, 24000)
     _run_cases(ctx, range(n), reqs, pending)
     answers = ctx.model(reqs)
@@ -1894,4 +1937,6 @@ def replay(ctx, case):
         _run_cases(sub, [case['hist']], [], [])
     elif isinstance(case, dict) and 'orientation_pair' in case:
         orientation_grid(sub)
+    elif isinstance(case, dict) and 'affine_helper' in case:
+        affine_helper_contract(sub)
     return sub.failures[:3] or None
